@@ -1,6 +1,6 @@
 (* Samp/PhaseSpace_proofs.v — lemmas about Samp/PhaseSpace.v *)
 From Coq Require Import Reals Lra List Lia.
-From TFV Require Import Base.RBase Kin.Boost Kin.Boost_proofs Samp.PhaseSpace.
+From TFV Require Import Base.RBase Kin.Boost Kin.Boost_proofs Kin.Angles Kin.Angles_proofs Samp.PhaseSpace.
 Import ListNotations.
 Open Scope R_scope.
 
@@ -12,3 +12,400 @@ Proof. intros H. unfold generate_out. apply firstn_length_le. exact H. Qed.
 Theorem generate_count_short {A : Type} (N : nat) (batches : list (list A)) :
   (length (concat batches) <= N)%nat -> generate_out N batches = concat batches.
 Proof. intros H. unfold generate_out. apply firstn_all2. exact H. Qed.
+
+(* ------------------------------------------------------------------ two-body step *)
+Lemma get_p_prod_nonneg M a b : 0 <= a -> 0 <= b -> a + b <= M ->
+  0 <= (M * M - (a + b) * (a + b)) * (M * M - (a - b) * (a - b)).
+Proof. intros. apply Rmult_le_pos; nra. Qed.
+
+Lemma get_p_sq M a b : 0 <= a -> 0 <= b -> a + b <= M -> 0 < M ->
+  get_p M a b * get_p M a b = (M * M - (a + b) * (a + b)) * (M * M - (a - b) * (a - b)) / (4 * M * M).
+Proof.
+  intros Ha Hb HM H0. unfold get_p. pose proof (get_p_prod_nonneg M a b Ha Hb HM) as Hp.
+  rewrite rmax_0_pos by assumption.
+  set (X := (M * M - (a + b) * (a + b)) * (M * M - (a - b) * (a - b))) in *.
+  replace (sqrt X / (2 * M) * (sqrt X / (2 * M))) with (sqrt X * sqrt X / (4 * M * M)) by (field; lra).
+  rewrite sqrt_sqrt by assumption. reflexivity.
+Qed.
+
+Lemma get_p_nonneg M a b : 0 < M -> 0 <= get_p M a b.
+Proof.
+  intros. unfold get_p. apply Rmult_le_pos; [apply sqrt_pos|]. left. apply Rinv_0_lt_compat. lra.
+Qed.
+
+Lemma two_body_energy M a b : 0 <= a -> 0 <= b -> a + b <= M -> 0 < M ->
+  let q := get_p M a b in
+  sqrt (q * q + b * b) = (M * M + b * b - a * a) / (2 * M) /\ sqrt (q * q + a * a) = (M * M + a * a - b * b) / (2 * M).
+Proof.
+  intros Ha Hb HM H0 q. unfold q. rewrite get_p_sq by assumption. split.
+  - replace ((M * M - (a + b) * (a + b)) * (M * M - (a - b) * (a - b)) / (4 * M * M) + b * b)
+      with (((M * M + b * b - a * a) / (2 * M)) * ((M * M + b * b - a * a) / (2 * M))) by (field; lra).
+    apply sqrt_square. apply Rmult_le_pos; [nra|]. left. apply Rinv_0_lt_compat. lra.
+  - replace ((M * M - (a + b) * (a + b)) * (M * M - (a - b) * (a - b)) / (4 * M * M) + a * a)
+      with (((M * M + a * a - b * b) / (2 * M)) * ((M * M + a * a - b * b) / (2 * M))) by (field; lra).
+    apply sqrt_square. apply Rmult_le_pos; [nra|]. left. apply Rinv_0_lt_compat. lra.
+Qed.
+
+(* each of the two momenta is on its mass shell (any angle with |cos theta| <= 1) *)
+Theorem two_body_on_shell M m1 m2 ct phi : -1 <= ct <= 1 ->
+  mass2 (two_body_p M m1 m2 ct phi) = m2 * m2 /\ mass2 (neg4 (two_body_recoil M m1 m2 ct phi)) = m1 * m1.
+Proof.
+  intros Hc. unfold two_body_p, two_body_recoil, mass2, mink, neg4. cbv zeta. cbn [pt px py pz].
+  set (q := get_p M m1 m2). set (st := sqrt (1 - ct * ct)).
+  assert (Hst : st * st = 1 - ct * ct) by (apply sqrt_sqrt; nra).
+  pose proof (sin2_cos2 phi) as Hf. unfold Rsqr in Hf.
+  assert (E1 : forall m, sqrt (q * q + m * m) * sqrt (q * q + m * m) = q * q + m * m) by (intros; apply sqrt_sqrt; nra).
+  split.
+  - rewrite E1.
+    replace (q * st * cos phi * (q * st * cos phi)) with (q * q * (st * st) * (cos phi * cos phi)) by ring.
+    replace (q * st * sin phi * (q * st * sin phi)) with (q * q * (st * st) * (sin phi * sin phi)) by ring.
+    rewrite Hst. replace (cos phi * cos phi) with (1 - sin phi * sin phi) by lra. ring.
+  - rewrite E1.
+    replace (- (q * st * cos phi) * - (q * st * cos phi)) with (q * q * (st * st) * (cos phi * cos phi)) by ring.
+    replace (- (q * st * sin phi) * - (q * st * sin phi)) with (q * q * (st * st) * (sin phi * sin phi)) by ring.
+    rewrite Hst. replace (cos phi * cos phi) with (1 - sin phi * sin phi) by lra. ring.
+Qed.
+
+(* and they add up to the parent at rest *)
+Theorem two_body_sum_at_rest M m1 m2 ct phi : 0 <= m1 -> 0 <= m2 -> m1 + m2 <= M -> 0 < M ->
+  add4 (two_body_p M m1 m2 ct phi) (neg4 (two_body_recoil M m1 m2 ct phi)) = V4 M 0 0 0.
+Proof.
+  intros H1 H2 HM H0. destruct (two_body_energy M m1 m2 H1 H2 HM H0) as [E2 E1]. cbv zeta in E1, E2.
+  unfold two_body_p, two_body_recoil, add4, neg4. cbv zeta. cbn [pt px py pz].
+  apply vec4_eq; cbn [pt px py pz]; try ring. rewrite E1, E2. field. lra.
+Qed.
+
+
+(* the particles generated earlier keep their masses when boosted into the new parent frame *)
+Theorem step_preserves_mass R_ p : vel_ok (neg3 (boost_vector R_)) -> mass (rest_vector R_ p) = mass p.
+Proof. intros H. unfold rest_vector. apply mass_boost. exact H. Qed.
+
+(* get_p grows with the parent mass above threshold (squared form) *)
+Lemma get_p_sq_mono M1 M2 a b : 0 <= a -> 0 <= b -> a + b <= M1 -> M1 <= M2 -> 0 < M1 ->
+  get_p M1 a b * get_p M1 a b <= get_p M2 a b * get_p M2 a b.
+Proof.
+  intros Ha Hb H1 H12 H0. rewrite !get_p_sq by lra.
+  set (s := (a + b) * (a + b)). set (d := (a - b) * (a - b)).
+  assert (Hs : 0 <= s) by (unfold s; apply Rmult_le_pos; lra). assert (Hd : 0 <= d) by (unfold d; apply (Rle_0_sqr (a - b))).
+  assert (Hds : d <= s). { unfold s, d. assert (0 <= 4 * (a * b)) by (apply Rmult_le_pos; [lra|apply Rmult_le_pos; lra]). lra. }
+  assert (HsM : s <= M1 * M1). { unfold s. apply Rmult_le_compat; lra. }
+  assert (H2 : M1 * M1 <= M2 * M2) by (apply Rmult_le_compat; lra).
+  set (x := M1 * M1) in *. set (y := M2 * M2) in *.
+  replace ((x - s) * (x - d) / (4 * M1 * M1)) with ((x - s) * (x - d) / (4 * x)) by (unfold x; f_equal; ring).
+  replace ((y - s) * (y - d) / (4 * M2 * M2)) with ((y - s) * (y - d) / (4 * y)) by (unfold y; f_equal; ring).
+  assert (Hx : 0 < x) by (unfold x; nra). assert (Hy : 0 < y) by lra.
+  apply Rmult_le_reg_r with (4 * x * y); [nra|].
+  replace ((x - s) * (x - d) / (4 * x) * (4 * x * y)) with ((x - s) * (x - d) * y) by (field; lra).
+  replace ((y - s) * (y - d) / (4 * y) * (4 * x * y)) with ((y - s) * (y - d) * x) by (field; lra).
+  (* (y-x) (x y - s d) >= 0 *)
+  assert (Hsd : s * d <= x * y) by nra.
+  assert (E : (y - s) * (y - d) * x - (x - s) * (x - d) * y = (y - x) * (x * y - s * d)) by ring.
+  assert (0 <= (y - x) * (x * y - s * d)) by (apply Rmult_le_pos; lra).
+  lra.
+Qed.
+
+(* ------------------------------------------------------------------ whole events *)
+
+
+Lemma sum4_map_boost v l : sum4 (map (fun p => boost p v) l) = boost (sum4 l) v.
+Proof.
+  induction l as [|p l IH]; cbn [map sum4].
+  - unfold boost, boost_g, zero4. apply vec4_eq; unfold mk4, add3, scale3, dot3, vect; cbn [pt px py pz vx vy vz]; ring.
+  - rewrite IH, boost_add. reflexivity.
+Qed.
+
+Lemma two_body_vec_norm M m1 m2 ct phi : -1 <= ct <= 1 ->
+  norm2_3 (vect (two_body_recoil M m1 m2 ct phi)) = get_p M m1 m2 * get_p M m1 m2.
+Proof.
+  intros Hc. unfold two_body_recoil, norm2_3, dot3, vect. cbv zeta. cbn [px py pz vx vy vz].
+  set (q := get_p M m1 m2). set (st := sqrt (1 - ct * ct)).
+  assert (Hst : st * st = 1 - ct * ct) by (apply sqrt_sqrt; nra).
+  pose proof (sin2_cos2 phi) as Hf. unfold Rsqr in Hf.
+  replace (q * st * cos phi * (q * st * cos phi) + q * st * sin phi * (q * st * sin phi) + q * ct * (q * ct))
+    with (q * q * ((st * st) * (cos phi * cos phi + sin phi * sin phi) + ct * ct)) by ring.
+  rewrite Hst. replace (cos phi * cos phi + sin phi * sin phi) with 1 by lra. ring.
+Qed.
+
+(* the recoil vector is (sqrt(m1^2 + |p|^2), p) *)
+Lemma recoil_form M m1 m2 ct phi : -1 <= ct <= 1 ->
+  let R_ := two_body_recoil M m1 m2 ct phi in
+  R_ = mk4 (sqrt (m1 * m1 + norm2_3 (vect R_))) (vect R_).
+Proof.
+  intros Hc R_. unfold R_. rewrite (two_body_vec_norm M m1 m2 ct phi Hc).
+  unfold two_body_recoil. cbv zeta. apply vec4_eq; unfold mk4, vect; cbn [pt px py pz vx vy vz]; try reflexivity.
+  f_equal. ring.
+Qed.
+
+Lemma rest_vector_parent M m1 m2 ct phi : -1 <= ct <= 1 -> 0 < m1 ->
+  rest_vector (two_body_recoil M m1 m2 ct phi) (V4 m1 0 0 0) = neg4 (two_body_recoil M m1 m2 ct phi).
+Proof.
+  intros Hc Hm. set (R_ := two_body_recoil M m1 m2 ct phi).
+  pose proof (recoil_form M m1 m2 ct phi Hc) as HR. cbv zeta in HR. fold R_ in HR.
+  unfold rest_vector.
+  set (p3 := vect R_) in *.
+  assert (E : neg3 (boost_vector R_) = boost_vector (mk4 (sqrt (m1 * m1 + norm2_3 (neg3 p3))) (neg3 p3))).
+  { rewrite norm2_3_neg. rewrite HR at 1. apply vec3_eq; unfold boost_vector, mk4, neg3; cbn [pt px py pz vx vy vz]; unfold Rdiv; ring. }
+  rewrite E, (boost_from_rest m1 (neg3 p3) Hm), norm2_3_neg. rewrite HR.
+  apply vec4_eq; unfold neg4, mk4, neg3; cbn [pt px py pz vx vy vz]; reflexivity.
+Qed.
+
+Lemma recoil_vel_ok M m1 m2 ct phi : -1 <= ct <= 1 -> 0 < m1 ->
+  eps < get_p M m1 m2 * get_p M m1 m2 / (get_p M m1 m2 * get_p M m1 m2 + m1 * m1) ->
+  vel_ok (neg3 (boost_vector (two_body_recoil M m1 m2 ct phi))).
+Proof.
+  intros Hc Hm He. unfold vel_ok. rewrite norm2_3_neg.
+  pose proof (two_body_vec_norm M m1 m2 ct phi Hc) as Hn.
+  set (R_ := two_body_recoil M m1 m2 ct phi) in *.
+  assert (Hpt : pt R_ = sqrt (get_p M m1 m2 * get_p M m1 m2 + m1 * m1)) by reflexivity.
+  set (q2 := get_p M m1 m2 * get_p M m1 m2) in *.
+  assert (Hq2 : 0 <= q2) by (unfold q2; apply Rle_0_sqr).
+  assert (Hm2 : 0 < m1 * m1) by (apply Rmult_lt_0_compat; lra).
+  assert (HE : 0 < pt R_) by (rewrite Hpt; apply sqrt_lt_R0; lra).
+  rewrite boost_vector_norm2 by lra. rewrite Hn, Hpt, sqrt_sqrt by lra. split; [assumption|].
+  apply Rmult_lt_reg_r with (q2 + m1 * m1); [lra|].
+  unfold Rdiv. rewrite Rmult_assoc, Rinv_l by lra. lra.
+Qed.
+
+(* one later step of the ladder keeps "all on shell, sum = parent at rest" *)
+Lemma gen_step_inv M prev a ct phi l masses :
+  -1 <= ct <= 1 -> 0 <= a -> 0 < prev -> prev + a <= M ->
+  eps < get_p M prev a * get_p M prev a / (get_p M prev a * get_p M prev a + prev * prev) ->
+  l <> [] -> map mass2 l = map sq masses -> sum4 l = V4 prev 0 0 0 ->
+  map mass2 (gen_step M prev a ct phi l) = map sq (a :: masses) /\ sum4 (gen_step M prev a ct phi l) = V4 M 0 0 0.
+Proof.
+  intros Hc Ha Hp HM He Hne Hmass Hsum.
+  pose proof (recoil_vel_ok M prev a ct phi Hc Hp He) as Hv.
+  destruct l as [|p0 l0]; [congruence|]. unfold gen_step.
+  set (R_ := two_body_recoil M prev a ct phi) in *. set (l := p0 :: l0) in *.
+  destruct (two_body_on_shell M prev a ct phi Hc) as [Hs1 _].
+  split.
+  - cbn [map]. rewrite Hs1. unfold sq at 1. f_equal. rewrite map_map, <- Hmass.
+    apply map_ext. intros p. unfold rest_vector, mass2. apply mink_boost, Hv.
+  - cbn [sum4]. unfold rest_vector. rewrite sum4_map_boost, Hsum.
+    fold (rest_vector R_ (V4 prev 0 0 0)). unfold R_. rewrite rest_vector_parent by assumption.
+    apply two_body_sum_at_rest; lra.
+Qed.
+
+Lemma last_cons_default (l : list R) : forall a d, last (a :: l) d = last l a.
+Proof. induction l as [|b l IH]; intros a d; [reflexivity|]. change (last (a :: b :: l) d) with (last (b :: l) d). rewrite !IH. reflexivity. Qed.
+
+Lemma gen_momentum_inv ladder : forall tl angles prev l masses,
+  ladder_valid prev ladder tl -> boosts_ok prev ladder tl -> length angles = length tl ->
+  (forall ct phi, In (ct, phi) angles -> -1 <= ct <= 1) ->
+  l <> [] -> map mass2 l = map sq masses -> sum4 l = V4 prev 0 0 0 ->
+  map mass2 (gen_momentum prev ladder tl angles l) = map sq (rev tl ++ masses) /\
+  sum4 (gen_momentum prev ladder tl angles l) = V4 (last ladder prev) 0 0 0.
+Proof.
+  induction ladder as [|M ladder IH]; intros tl angles prev l masses Hval Hb Hlen Hang Hne Hmass Hsum.
+  - destruct tl; cbn in Hval; [|contradiction]. cbn. split; assumption.
+  - destruct tl as [|a tl]; cbn in Hval; [contradiction|]. destruct Hval as (Ha & HM & Hval).
+    destruct angles as [|[ct phi] angles]; [cbn in Hlen; lia|].
+    cbn [boosts_ok] in Hb. destruct Hb as (Hp & He & Hb).
+    assert (Hc : -1 <= ct <= 1) by (apply (Hang ct phi); left; reflexivity).
+    destruct (gen_step_inv M prev a ct phi l masses Hc Ha Hp HM He Hne Hmass Hsum) as [S1 S2].
+    cbn [gen_momentum].
+    destruct (IH tl angles M (gen_step M prev a ct phi l) (a :: masses) Hval Hb ltac:(cbn in Hlen; lia)
+                ltac:(intros c f Hin; apply (Hang c f); right; exact Hin) ltac:(unfold gen_step; discriminate) S1 S2) as [R1 R2].
+    split.
+    + rewrite R1. cbn [rev]. rewrite <- app_assoc. reflexivity.
+    + rewrite R2, last_cons_default. reflexivity.
+Qed.
+
+(* every event of the n-body generator (n >= 2): all particles on shell, momenta add up to (m0,0,0,0) *)
+Theorem event_physical m0 a0 a1 tl Ms angles :
+  0 <= a0 -> ladder_valid a0 (Ms ++ [m0]) (a1 :: tl) ->
+  match Ms ++ [m0] with M1 :: ladder' => 0 < M1 /\ boosts_ok M1 ladder' tl | [] => True end ->
+  length angles = S (length tl) -> (forall ct phi, In (ct, phi) angles -> -1 <= ct <= 1) ->
+  map mass2 (event m0 a0 (a1 :: tl) Ms angles) = map sq (rev (a0 :: a1 :: tl)) /\
+  sum4 (event m0 a0 (a1 :: tl) Ms angles) = V4 m0 0 0 0.
+Proof.
+  intros H0 Hval Hb Hlen Hang. unfold event.
+  remember (Ms ++ [m0]) as ladder eqn:El.
+  destruct ladder as [|M1 ladder']; [destruct Ms; discriminate|].
+  cbn in Hval. destruct Hval as (Ha1 & HM1 & Hval). destruct Hb as [HM1pos Hb].
+  destruct angles as [|[ct phi] angles]; [cbn in Hlen; lia|].
+  assert (Hc : -1 <= ct <= 1) by (apply (Hang ct phi); left; reflexivity).
+  cbn [gen_momentum]. change (gen_step M1 a0 a1 ct phi []) with [two_body_p M1 a0 a1 ct phi; neg4 (two_body_recoil M1 a0 a1 ct phi)].
+  destruct (two_body_on_shell M1 a0 a1 ct phi Hc) as [Hs1 Hs2].
+  pose proof (two_body_sum_at_rest M1 a0 a1 ct phi H0 Ha1 HM1 HM1pos) as Hsum.
+  destruct (gen_momentum_inv ladder' tl angles M1 [two_body_p M1 a0 a1 ct phi; neg4 (two_body_recoil M1 a0 a1 ct phi)] [a1; a0]
+             Hval Hb ltac:(cbn in Hlen; lia) ltac:(intros c f Hin; apply (Hang c f); right; exact Hin) ltac:(discriminate)) as [R1 R2].
+  - cbn [map]. rewrite Hs1, Hs2. reflexivity.
+  - cbn [sum4]. rewrite <- Hsum. apply vec4_eq; unfold add4, zero4; cbn [pt px py pz]; ring.
+  - split.
+    + rewrite R1. cbn [rev]. rewrite <- !app_assoc. reflexivity.
+    + rewrite R2. f_equal.
+      rewrite <- (last_cons_default ladder' M1 0), El. apply last_last.
+Qed.
+
+(* ------------------------------------------------------------------ weight bound *)
+Lemma imp_aux_step first m0 m_n sm a1 a2 rest' M Ms' amin amax rng' :
+  imp_aux first m0 m_n sm (a1 :: a2 :: rest') (M :: Ms') ((amin, amax) :: rng') =
+  (if first then 1 else (m0 - sm - (m_n + a1)) / (m0 - sm - amin)) * imp_aux false m0 M (sm - a2) (a2 :: rest') Ms' rng'.
+Proof. reflexivity. Qed.
+Lemma sq_le_le x y : 0 <= x -> 0 <= y -> x * x <= y * y -> x <= y.
+Proof. intros Hx Hy H. destruct (Rle_lt_dec x y) as [|Hlt]; [assumption|]. exfalso.
+  assert (y * y < x * x) by (apply Rmult_le_0_lt_compat; lra). lra. Qed.
+
+(* get_p falls with the mass of the first daughter *)
+Lemma get_p_sq_anti M a a' b : 0 <= a -> a <= a' -> 0 <= b -> a' + b <= M -> 0 < M ->
+  get_p M a' b * get_p M a' b <= get_p M a b * get_p M a b.
+Proof.
+  intros Ha Haa Hb HM H0. rewrite !get_p_sq by lra.
+  apply Rmult_le_compat_r; [left; apply Rinv_0_lt_compat; apply Rmult_lt_0_compat; lra|].
+  set (A := a * a). set (A' := a' * a'). set (B := b * b). set (X := M * M).
+  assert (HA : A <= A') by (unfold A, A'; apply Rmult_le_compat; lra).
+  assert (HA'X : A' <= X) by (unfold A', X; apply Rmult_le_compat; lra).
+  assert (HB : 0 <= B) by (unfold B; apply Rle_0_sqr).
+  assert (HA0 : 0 <= A) by (unfold A; apply Rle_0_sqr).
+  assert (E : (X - (a + b) * (a + b)) * (X - (a - b) * (a - b)) - (X - (a' + b) * (a' + b)) * (X - (a' - b) * (a' - b))
+              = (A' - A) * (2 * X + 2 * B - A - A')) by (unfold A, A', B, X; ring).
+  assert (0 <= (A' - A) * (2 * X + 2 * B - A - A')) by (apply Rmult_le_pos; lra).
+  lra.
+Qed.
+
+Lemma get_p_le M1 M2 a a' b : 0 <= a -> a <= a' -> 0 <= b -> a' + b <= M1 -> M1 <= M2 -> 0 < M1 ->
+  get_p M1 a' b <= get_p M2 a b.
+Proof.
+  intros. apply sq_le_le; [apply get_p_nonneg; lra|apply get_p_nonneg; lra|].
+  apply Rle_trans with (get_p M1 a b * get_p M1 a b); [apply get_p_sq_anti; lra|apply get_p_sq_mono; lra].
+Qed.
+
+
+
+Lemma rprod_le l1 : forall l2, Forall2 (fun x y => 0 <= x <= y) l1 l2 -> 0 <= rprod l1 <= rprod l2.
+Proof.
+  induction l1 as [|x l1 IH]; intros l2 H; inversion H; subst; cbn [rprod]; [lra|].
+  specialize (IH _ H4). destruct H2. split; [apply Rmult_le_pos; lra|apply Rmult_le_compat; lra].
+Qed.
+
+Lemma q_le_wtmax tl : forall ladder prev emmin emmax prevA,
+  ladder_valid prev ladder tl -> upper_ok emmax ladder tl -> 0 <= emmin + prevA -> emmin + prevA <= prev ->
+  Forall (fun M => 0 < M) ladder ->
+  Forall2 (fun x y => 0 <= x <= y) (q_list prev ladder tl) (wtmax_list emmin emmax prevA tl).
+Proof.
+  induction tl as [|a tl IH]; intros ladder prev emmin emmax prevA Hval Hup Hlo Hle Hpos.
+  - destruct ladder; cbn; constructor.
+  - destruct ladder as [|M ladder]; [cbn in Hval; contradiction|].
+    cbn in Hval. destruct Hval as (Ha & HM & Hval). cbn in Hup. destruct Hup as (HMu & Hup).
+    inversion Hpos as [|? ? HMpos Hpos']; subst.
+    cbn [q_list wtmax_list]. constructor.
+    + split; [apply get_p_nonneg; assumption|]. apply get_p_le; lra.
+    + apply IH; try assumption; lra.
+Qed.
+
+Lemma ladder_valid_sum tl : forall ladder prev, ladder_valid prev ladder tl -> prev + rsum tl <= last ladder prev.
+Proof.
+  induction tl as [|a tl IH]; intros ladder prev H.
+  - destruct ladder; cbn in *; [lra|contradiction].
+  - destruct ladder as [|M ladder]; cbn in H; [contradiction|]. destruct H as (Ha & HM & H).
+    specialize (IH _ _ H). cbn [rsum]. rewrite last_cons_default. lra.
+Qed.
+
+Lemma upper_ok_of_valid tl : forall ladder prev e, ladder_valid prev ladder tl -> last ladder prev = e + rsum tl ->
+  upper_ok e ladder tl.
+Proof.
+  induction tl as [|a tl IH]; intros ladder prev e H Hl.
+  - destruct ladder; cbn; exact I.
+  - destruct ladder as [|M ladder]; cbn in H; [contradiction|]. destruct H as (Ha & HM & H).
+    cbn [upper_ok]. rewrite last_cons_default in Hl. cbn [rsum] in Hl.
+    pose proof (ladder_valid_sum _ _ _ H) as Hs. split; [lra|].
+    apply (IH ladder M (e + a) H). lra.
+Qed.
+
+(* the product of break-up momenta never exceeds the stored bound *)
+Theorem prod_q_le_wtmax m0 a0 tl Ms : 0 <= a0 -> ladder_valid a0 (Ms ++ [m0]) tl -> Forall (fun M => 0 < M) (Ms ++ [m0]) ->
+  0 <= rprod (q_list a0 (Ms ++ [m0]) tl) <= wt_max m0 a0 tl.
+Proof.
+  intros H0 Hval Hpos. unfold wt_max. apply rprod_le. apply q_le_wtmax; try assumption; try lra.
+  apply (upper_ok_of_valid tl (Ms ++ [m0]) a0); [assumption|].
+  rewrite last_last. ring.
+Qed.
+
+
+Lemma ranges_aux_step m0 m_n sm a1 a2 rest :
+  ranges_aux m0 m_n sm (a1 :: a2 :: rest) = (m_n + a1, m0 - sm) :: ranges_aux m0 (m_n + a1) (sm - a2) (a2 :: rest).
+Proof. reflexivity. Qed.
+
+Lemma imp_bounds m0 tl : forall first m_n mlow sm Ms, mlow <= m_n -> ranges_respected m0 m_n mlow sm tl Ms ->
+  0 <= imp_aux first m0 m_n sm tl Ms (ranges_aux m0 mlow sm tl) <= 1.
+Proof.
+  induction tl as [|a1 rest IH]; intros first m_n mlow sm Ms Hlow Hr.
+  - cbn. lra.
+  - destruct rest as [|a2 rest'].
+    + cbn. destruct Ms; cbn; lra.
+    + destruct Ms as [|M Ms'].
+      * cbn. lra.
+      * rewrite ranges_aux_step, imp_aux_step. cbn [ranges_respected] in Hr. destruct Hr as (Hab & Hmin & HaM & Hr).
+        specialize (IH false M (mlow + a1) (sm - a2) Ms' ltac:(lra) Hr).
+        assert (Hf : 0 <= (if first then 1 else (m0 - sm - (m_n + a1)) / (m0 - sm - (mlow + a1))) <= 1).
+        { destruct first; [lra|]. split.
+          - apply Rmult_le_pos; [lra|]. left. apply Rinv_0_lt_compat. lra.
+          - apply Rmult_le_reg_r with (m0 - sm - (mlow + a1)); [lra|]. unfold Rdiv. rewrite Rmult_assoc, Rinv_l by lra. lra. }
+        split; [apply Rmult_le_pos; lra|].
+        apply Rle_trans with (1 * 1); [apply Rmult_le_compat; lra|lra].
+Qed.
+
+Theorem weight_le_one m0 a0 tl Ms : 0 <= a0 -> ladder_valid a0 (Ms ++ [m0]) tl -> Forall (fun M => 0 < M) (Ms ++ [m0]) ->
+  ranges_respected m0 a0 a0 (sm0 tl) tl Ms -> 0 < wt_max m0 a0 tl ->
+  0 <= weight m0 a0 tl Ms <= 1.
+Proof.
+  intros H0 Hval Hpos Hr Hw. unfold weight, weight_w, weight_raw_w, importance, mass_ranges.
+  pose proof (imp_bounds m0 tl true a0 a0 (sm0 tl) Ms ltac:(lra) Hr) as [I0 I1].
+  pose proof (prod_q_le_wtmax m0 a0 tl Ms H0 Hval Hpos) as [P0 P1].
+  assert (R0 : 0 <= rprod (q_list a0 (Ms ++ [m0]) tl) / wt_max m0 a0 tl <= 1).
+  { split; [apply Rmult_le_pos; [assumption|left; apply Rinv_0_lt_compat; assumption]|].
+    apply Rmult_le_reg_r with (wt_max m0 a0 tl); [assumption|]. unfold Rdiv. rewrite Rmult_assoc, Rinv_l by lra. lra. }
+  split; [apply Rmult_le_pos; lra|]. apply Rle_trans with (1 * 1); [apply Rmult_le_compat; lra|lra].
+Qed.
+
+(* ------------------------------------------------------------------ LIPS flatness *)
+
+Lemma density_step m0 m_n sm a1 a2 rest' M Ms' :
+  density_aux m0 m_n sm (a1 :: a2 :: rest') (M :: Ms') = / (m0 - sm - (m_n + a1)) * density_aux m0 M (sm - a2) (a2 :: rest') Ms'.
+Proof. reflexivity. Qed.
+Lemma cprod_step m0 sm a1 a2 rest' amin amax rng' :
+  cprod m0 sm (a1 :: a2 :: rest') ((amin, amax) :: rng') = / (m0 - sm - amin) * cprod m0 (sm - a2) (a2 :: rest') rng'.
+Proof. reflexivity. Qed.
+
+Lemma imp_density_false m0 tl : forall m_n sm Ms rng, length Ms = length rng ->
+  ladder_inside m0 m_n sm tl Ms ->
+  imp_aux false m0 m_n sm tl Ms rng * density_aux m0 m_n sm tl Ms = cprod m0 sm tl rng.
+Proof.
+  induction tl as [|a1 rest IH]; intros m_n sm Ms rng HL Hin.
+  - cbn. destruct Ms, rng; cbn; ring.
+  - destruct rest as [|a2 rest'].
+    + cbn. destruct Ms, rng; cbn; try ring; try (destruct p; ring).
+    + destruct Ms as [|M Ms']; destruct rng as [|[amin amax] rng']; cbn [length] in HL; try lia.
+      * cbn. ring.
+      * rewrite imp_aux_step, density_step, cprod_step. cbn [ladder_inside] in Hin. destruct Hin as [Hlt Hin].
+        specialize (IH M (sm - a2) Ms' rng' ltac:(lia) Hin).
+        transitivity ((m0 - sm - (m_n + a1)) / (m0 - sm - amin) * / (m0 - sm - (m_n + a1)) *
+                      (imp_aux false m0 M (sm - a2) (a2 :: rest') Ms' rng' * density_aux m0 M (sm - a2) (a2 :: rest') Ms')); [ring|].
+        rewrite IH. unfold Rdiv.
+        replace ((m0 - sm - (m_n + a1)) * / (m0 - sm - amin) * / (m0 - sm - (m_n + a1)))
+          with (/ (m0 - sm - amin) * ((m0 - sm - (m_n + a1)) * / (m0 - sm - (m_n + a1)))) by ring.
+        rewrite Rinv_r by lra. ring.
+Qed.
+
+
+Theorem lips_flat m0 a0 tl Ms : length Ms = length (mass_ranges m0 a0 tl) ->
+  ladder_inside m0 a0 (sm0 tl) tl Ms ->
+  proposal_density m0 a0 tl Ms * weight m0 a0 tl Ms = lips_const m0 a0 tl * rprod (q_list a0 (Ms ++ [m0]) tl).
+Proof.
+  intros HL Hin. unfold proposal_density, weight, weight_w, weight_raw_w, importance, lips_const.
+  destruct tl as [|a1 [|a2 rest']].
+  - cbn. destruct Ms; cbn; unfold Rdiv; ring.
+  - cbn. destruct Ms; cbn; unfold Rdiv; ring.
+  - destruct Ms as [|M Ms']; [cbn in HL; discriminate|].
+    remember (mass_ranges m0 a0 (a1 :: a2 :: rest')) as rng eqn:Er.
+    destruct rng as [|[amin amax] rng']; [cbn in HL; discriminate|].
+    rewrite imp_aux_step, density_step. cbn [ladder_inside] in Hin. destruct Hin as [Hlt Hin].
+    cbn [length] in HL.
+    pose proof (imp_density_false m0 (a2 :: rest') M (sm0 (a1 :: a2 :: rest') - a2) Ms' rng' ltac:(lia) Hin) as H.
+    unfold Rdiv.
+    transitivity (/ (m0 - sm0 (a1 :: a2 :: rest') - (a0 + a1)) *
+      (imp_aux false m0 M (sm0 (a1 :: a2 :: rest') - a2) (a2 :: rest') Ms' rng' * density_aux m0 M (sm0 (a1 :: a2 :: rest') - a2) (a2 :: rest') Ms') *
+      (rprod (q_list a0 ((M :: Ms') ++ [m0]) (a1 :: a2 :: rest')) * / wt_max m0 a0 (a1 :: a2 :: rest'))); [ring|].
+    rewrite H. ring.
+Qed.
